@@ -221,7 +221,11 @@ def handle (op : String) (args : List Sexp) : Option Ans :=
         match resolveRef u rs (fuelFor u) roots with
         | some l' => passFail (l == l') "differs-from-spec"
         | none => .ok (list [tag "fail", tag "spec-undefined"])
-      | .err => .ok (tag "out-of-domain")
+      | .err =>
+        -- the specification decides the domain: where it defines the list, an error is a failure
+        match resolveRef u rs (fuelFor u) roots with
+        | some _ => .ok (list [tag "fail", tag "impl-error"])
+        | none => .ok (tag "out-of-domain")
       | .fuel => .skip "fuel")
   | "oracle-mediation", [f] => do
     let f ← forestFrom f
